@@ -66,20 +66,11 @@ pub unsafe fn replace(b: Backend, src: usize, target: usize) -> Guard {
             Guard::Public(injector)
         }
         #[cfg(feature = "seam_arm64")]
-        Backend::Arm64Linux => {
-            use crate::injector_core::patch_trait::PatchTrait;
-            Guard::Raw(crate::injector_core::patch_arm64::PatchArm64::replace_function_with_other_function(fpi(src), fpi(target)))
-        }
+        Backend::Arm64Linux => Guard::Raw(crate::__verif_glue::arm64_replace(fpi(src), fpi(target))),
         #[cfg(feature = "seam_macsim")]
-        Backend::Arm64MacEncoder => {
-            use crate::injector_core::patch_trait::PatchTrait;
-            Guard::Raw(crate::patch_arm64_macsim::PatchArm64::replace_function_with_other_function(fpi(src), fpi(target)))
-        }
+        Backend::Arm64MacEncoder => Guard::Raw(crate::__verif_glue::macsim_replace(fpi(src), fpi(target))),
         #[cfg(feature = "seam_arm32")]
-        Backend::Arm32 => {
-            use crate::injector_core::patch_trait::PatchTrait;
-            Guard::Raw(crate::injector_core::patch_arm::PatchArm::replace_function_with_other_function(fpi(src), fpi(target)))
-        }
+        Backend::Arm32 => Guard::Raw(crate::__verif_glue::arm32_replace(fpi(src), fpi(target))),
         #[allow(unreachable_patterns)]
         other => panic!("harness: back-end {other:?} is not reachable in this build (seam feature off)"),
     }
@@ -97,20 +88,11 @@ pub unsafe fn replace_bool(b: Backend, src: usize, value: bool) -> Guard {
             Guard::Public(injector)
         }
         #[cfg(feature = "seam_arm64")]
-        Backend::Arm64Linux => {
-            use crate::injector_core::patch_trait::PatchTrait;
-            Guard::Raw(crate::injector_core::patch_arm64::PatchArm64::replace_function_return_boolean(fpi(src), value))
-        }
+        Backend::Arm64Linux => Guard::Raw(crate::__verif_glue::arm64_bool(fpi(src), value)),
         #[cfg(feature = "seam_macsim")]
-        Backend::Arm64MacEncoder => {
-            use crate::injector_core::patch_trait::PatchTrait;
-            Guard::Raw(crate::patch_arm64_macsim::PatchArm64::replace_function_return_boolean(fpi(src), value))
-        }
+        Backend::Arm64MacEncoder => Guard::Raw(crate::__verif_glue::macsim_bool(fpi(src), value)),
         #[cfg(feature = "seam_arm32")]
-        Backend::Arm32 => {
-            use crate::injector_core::patch_trait::PatchTrait;
-            Guard::Raw(crate::injector_core::patch_arm::PatchArm::replace_function_return_boolean(fpi(src), value))
-        }
+        Backend::Arm32 => Guard::Raw(crate::__verif_glue::arm32_bool(fpi(src), value)),
         #[allow(unreachable_patterns)]
         other => panic!("harness: back-end {other:?} is not reachable in this build (seam feature off)"),
     }
@@ -119,7 +101,7 @@ pub unsafe fn replace_bool(b: Backend, src: usize, value: bool) -> Guard {
 /// The macOS entry encoder (pure function of two addresses).
 #[cfg(feature = "seam_macenc")]
 pub fn macos_entry_words(pc: usize, target: usize) -> Vec<u32> {
-    crate::injector_core::arm64_codegenerator::maybe_emit_long_jump(pc, target)
+    crate::__verif_glue::macos_entry_encoder(pc, target)
 }
 
 /// # Safety
